@@ -4,6 +4,7 @@ All theorems hold for every hash function `H` (ownership *is* the chain's predic
 H("o" ‖ address ‖ H(signer)) = entry.owner), every state and every message.
 -/
 import Canine.Filetree.Model
+import Canine.Generated.KeyFacts
 namespace Canine.Filetree
 
 variable (H : String → String)
@@ -554,5 +555,17 @@ example : (step toyH rootState (.postFile "alice" (toyH "alice") (rootAddress to
 example : step toyH rootState (.postFile "mallory" (toyH "alice") (rootAddress toyH) "c" "x" (.map []) (.map []) "{}" "{}" "t2") = none := by decide
 example : step toyH rootState (.deleteFile "mallory" (rootAddress toyH) (toyH "alice")) = none := by decide
 example : (step toyH rootState (.deleteFile "alice" (rootAddress toyH) (toyH "alice"))).isSome = true := by decide
+
+/-! ## The store keys as they stand in the source (regenerated fact) -/
+
+/-- `C10_filesKey_injective` is about this key format: an entry is identified by (address, owner).  Fingerprints of the key constructors of x/filetree/types/key*.go as the
+model was written against them; `Generated.keyFns_filetree` is recomputed from the source on every
+run (the declarations are listed in Generated/KeyFacts.lean). -/
+def C10_expectedKeys : List (String × String) := [
+  ("x/filetree/types/key_files.go:FilesKey", "6dd50d273d2b852e"),
+  ("x/filetree/types/key_pubkey.go:PubkeyKey", "f20db6b451653040"),
+  ("x/filetree/types/keys.go:KeyPrefix", "caccc65e7667915d")]
+
+theorem C10_store_keys_as_modelled : Generated.keyFns_filetree = C10_expectedKeys := by decide
 
 end Canine.Filetree
